@@ -4,6 +4,7 @@ from checks import common, attempt_driver
 
 def body(chk):
     attempt_driver.run(chk, 'C09')
+    attempt_driver.run_pair(chk, 'C09')      # two attempts in flight: no World crosses over from one to the other
     # across the scheduler: every started attempt reaches its end (after hook, World hand-over) also when fail-fast trips
     from checks import sched_worlds
     sched_worlds.run(chk, 'C09', selected=lambda n, w: w.fail_fast)
